@@ -114,7 +114,8 @@ class SubstModel:
             if w in self.consts:
                 return str(self.consts[w])
             raise KeyError(w)
-        t = WORD.sub(repl, text)
+        t = re.sub(r'\$([0-9a-fA-F]+)', lambda m: str(int(m.group(1), 16)), text)
+        t = WORD.sub(repl, t)
         if not re.fullmatch(r'[0-9+*() ]+', t) or not well_formed(t):
             raise KeyError(t)
         return int(eval(t, {'__builtins__': {}}, {}))   # noqa: S307 - digits and + * ( ) only
@@ -223,14 +224,18 @@ def isa_for(pre):
 
 def world_for(case, lines):
     argv = ['bespokeasm', 'compile', '-c', 'isa.yaml', 'main.asm']
-    for n, v in case['cli_symbols'].items():
-        argv += ['-D', n if v == '' else f'{n}={v}']
+    for i, (n, v) in enumerate(case['cli_symbols'].items()):
+        sp = case.get('cli_spacing', 0)
+        eq = ['=', ' = ', ' =', '= '][(sp + i) % 4] if sp else '='
+        argv += ['-D', (' ' if sp == 2 else '') + (n if v == '' else f'{n}{eq}{v}')]
     for raw in case.get('cli_raw', []):
         argv += ['-D', raw]
     return {'files': {f'{PDIR}/isa.yaml': gen.isa_text(isa_for(case['pre_symbols']), 'yaml'),
-                      f'{PDIR}/main.asm': '\n'.join(lines + ['#unmute'] * sum(1 for x in lines if x == '#mute') + [
-                          '  .byte $EE']) + '\n'},
-            'argv': argv, 'cwd': PDIR, 'env': {'HOME': '/sim/home'}, 'step_budget': 3_000_000}
+                      f'{PDIR}/main.asm': ('\r\n' if case.get('crlf') else '\n').join(
+                          lines + ['#unmute'] * sum(1 for x in lines if x == '#mute') + ['  .byte $EE']) + '\n'},
+            'argv': argv, 'cwd': PDIR, 'step_budget': 3_000_000, 'set_seed': case.get('set_seed'),
+            # environment variables named like hex numbers / compilers: `$FC` in a value is a hex literal, not a variable
+            'env': {'HOME': '/sim/home', 'FC': '10', 'F77': 'gfortran', 'CC': 'cc', 'AB': '77', 'BA': '5'}}
 
 
 def run_history(case, stats=None):
@@ -288,7 +293,35 @@ def init_probe_violations(case):
     return v, r
 
 
+def check_xproc(case):
+    from sim import xproc
+    model = SubstModel(case['pre_symbols'], case['cli_symbols'])
+    lines = []
+    for op in case['ops']:
+        res = model.apply(op)
+        if res is None or res[0] == 'probe':
+            continue
+        lines += res[1]
+    w = world_for(case, lines)
+    rr = xproc.run_real(w, PDIR, hashseed=case['xproc'].get('hashseed', 0), pyopt=case['xproc'].get('pyopt', 0),
+                        env_extra={k: v for k, v in w['env'].items() if k != 'HOME'})
+    v = []
+    obs = {'xproc': case['xproc'], 'exit': rr['exit'], 'stderr': rr['stderr'][-200:], 'lines': lines}
+    if rr['kind'] != 'exit' or rr['exit'] != 0:
+        v.append('SUB-valid-history-rejected')
+    else:
+        img = rr['files'].get(f'{PDIR}/main.bin')
+        got = [ord(ch) for ch in img] if img is not None else None
+        if got != model.out + [0xEE]:
+            v.append('SUB-wrong-bytes')
+            obs['expected'] = (model.out + [0xEE])[-10:]
+            obs['got'] = (got or [])[-10:]
+    return {'violations': v, 'observed': obs}
+
+
 def check_case(case):
+    if case.get('xproc'):
+        return check_xproc(case)
     if case.get('kind') == 'init-collision':
         v, r = init_probe_violations(case)
         return {'violations': v, 'observed': {'argv': world_for(case, [])['argv'], 'exit': r['exit']}}
@@ -348,12 +381,16 @@ def make_machine(stats, box):
             self.model = None
             self.lines = []
 
-        @initialize(pre=sym_init, cli=st.dictionaries(st.sampled_from(NAMES[3:]), st.one_of(lit, st.just('')),
-                                                      max_size=2))
-        def init(self, pre, cli):
+        @initialize(pre=sym_init, cli=st.dictionaries(st.sampled_from(NAMES[3:]), st.one_of(
+            lit, st.just(''), st.sampled_from(['$FC', '$F77', '$1F', '$a + 1'])), max_size=2),
+            sseed=st.one_of(st.none(), st.integers(min_value=1, max_value=1 << 30)))
+        def init(self, pre, cli, sseed):
             cli = {k: v for k, v in cli.items() if k not in pre}
+            self.case['set_seed'] = sseed        # iteration order of every set the assembler builds with set(...)
             self.case['pre_symbols'] = dict(pre)
             self.case['cli_symbols'] = dict(cli)
+            self.case['crlf'] = (len(pre) + len(cli)) % 3 == 2
+            self.case['cli_spacing'] = (len(pre) * 2 + len(cli)) % 3       # blanks around '=' / before the name in -D
             self.model = SubstModel(dict(pre), dict(cli))
             stats['histories'] += 1
             for i, cn in enumerate(['XABY', 'ABX', 'Q_AB']):
@@ -562,6 +599,8 @@ def make_machine(stats, box):
                     box['nontrivial'] += 1
                 for k, v in m.probes.items():
                     box['probes'][k] = box['probes'].get(k, 0) + v
+                if m.probes.get('use_mentions_symbol', 0) >= 2 and len(box['xproc']) < 3:
+                    box['xproc'].append(copy.deepcopy(self.case))
                 if len(box['samples']) < 1 and m.probes.get('use_mentions_symbol', 0) >= 2:
                     box['samples'].append({'history_lines': list(self.lines), 'pre_symbols': self.case['pre_symbols'],
                                            'cli_symbols': self.case['cli_symbols'], 'expected_bytes': m.out[:24]})
@@ -574,7 +613,7 @@ def explore(subseed, cfg):
     from hypothesis import settings, HealthCheck, Phase
     from hypothesis.stateful import run_state_machine_as_test
     stats = {'runs': 0, 'evaluations': 0, 'steps': 0, 'histories': 0, 'harness': []}
-    box = {'paths': set(), 'probes': {}, 'samples': [], 'nontrivial': 0}
+    box = {'paths': set(), 'probes': {}, 'samples': [], 'nontrivial': 0, 'xproc': []}
     out = {'evaluations': 0, 'runs': 0, 'steps': 0, 'probes': {}, 'faults_fired': {}, 'discarded': {},
            'violations': [], 'samples': [], 'distinct': set(), 'harness': [], 'sim_clock_s': 0.0}
     # one-shot collision probes between the two up-front sources
@@ -615,6 +654,22 @@ def explore(subseed, cfg):
                 out['violations'].append({'case': cause.case, 'class': c, 'group': 'history'})
         else:
             out['harness'].append(f'hypothesis: {type(e).__name__}: {str(e)[:200]}')
+    # cross-process tier: a few complete histories are assembled by real interpreters (real hash seeds, python -O)
+    if not out['violations']:
+        for i, hc in enumerate(box['xproc']):
+            for hs in ((subseed + i) % 4001, (subseed * 7 + i) % 4001):
+                c = copy.deepcopy(hc)
+                c['xproc'] = {'pyopt': [0, 1, 2][i % 3], 'hashseed': hs}
+                try:
+                    res = check_case(c)
+                except Exception as e:
+                    out['harness'].append(f'xproc: {type(e).__name__}: {e}')
+                    continue
+                stats['runs'] += 1
+                stats['evaluations'] += 1
+                box['probes']['xproc_runs'] = box['probes'].get('xproc_runs', 0) + 1
+                for vv in res['violations']:
+                    out['violations'].append({'case': c, 'class': vv, 'group': 'xproc'})
     out['evaluations'] = stats['evaluations']
     out['runs'] = stats['runs']
     out['steps'] = stats['steps']
